@@ -1,6 +1,6 @@
 """C13 — Spectrum arithmetic is pointwise, commutative and unit-agnostic.
 
-Online oracle on Spectrum._ufunc (reached through the five public methods and operators, by any workload):
+Online oracle on the five public methods Spectrum.add/subtract/multiply/divide/power (the operators call these), by any workload:
 the result grid must be uniform, span the union of the operands' ranges with the minimal number of steps
 no coarser than the requested sampling; every value must be op(interp_a(w), interp_b(w)) with the monitor's
 own piecewise-linear interpolation (polynomial operands for the higher-order spline methods) and the fill
@@ -23,8 +23,8 @@ PLAN = {'quick': {'gen': 8}, 'thorough': {'gen': 16, 'tests': 1, 'docs': 1}}
 REQUIRED_BUCKETS = ['range:identical', 'range:nested', 'range:overlap', 'range:disjoint', 'grid:uniform', 'grid:nonuniform',
                     'op:add', 'op:subtract', 'op:multiply', 'op:divide', 'op:power', 'sampling:min', 'sampling:left',
                     'sampling:right', 'sampling:float', 'fill:0', 'fill:nonzero', 'fill:pair', 'unit:nm', 'unit:um', 'unit:m',
-                    'unit:angstrom', 'unit:mixed', 'scalar', 'vector', 'method:quadratic', 'method:cubic', 'blackbody', 'density', 'update-sequence', 'values:integer', 'scalar:numpy-type', 'scalar:integer-values', 'same-spectrum:two-units', 'grid:decimal-step']
-REQUIRED_ANCHORS = ['probe:Spectrum._ufunc', 'anchor:_interp_common', 'anchor:_sampling', 'anchor:Spectrum.sample']
+                    'unit:angstrom', 'unit:mixed', 'scalar', 'vector', 'method:quadratic', 'method:cubic', 'blackbody', 'density', 'update-sequence', 'values:integer', 'scalar:numpy-type', 'scalar:integer-values', 'same-spectrum:two-units', 'grid:decimal-step', 'grid:huge']
+REQUIRED_ANCHORS = ['probe:Spectrum.add', 'probe:Spectrum.subtract', 'probe:Spectrum.multiply', 'probe:Spectrum.divide', 'probe:Spectrum.power', 'anchor:Spectrum._ufunc', 'anchor:_interp_common', 'anchor:_sampling', 'anchor:Spectrum.sample']
 REQUIRED_ORACLES = ['grid', 'value=op(interp)', 'new-object', 'commutative', 'unit-agnostic', 'operands-physically-unchanged',
                     'scalar-elementwise']
 OPS = {'add': np.add, 'subtract': np.subtract, 'multiply': np.multiply, 'divide': np.divide, 'power': np.power}
@@ -33,7 +33,7 @@ OPS = {'add': np.add, 'subtract': np.subtract, 'multiply': np.multiply, 'divide'
 def anchors(lentil):
     R = lentil.radiometry
     return [('_interp_common', R._interp_common), ('_sampling', R._sampling), ('_intersect', R._intersect),
-            ('Spectrum.sample', R.Spectrum.sample)]
+            ('Spectrum.sample', R.Spectrum.sample), ('Spectrum._ufunc', R.Spectrum._ufunc)]
 
 
 def phys(s):
@@ -164,7 +164,9 @@ def ufunc_oracle(ctx, args, kwargs, result, exc, pre):
             bad &= np.abs(got - ref) > 1e-11 * ma_ / np.maximum(np.abs(vb), 1e-300)
     bad &= ~tie
     if uf is np.divide:     # a denominator that is zero to rounding: inf vs 1e16 are both 'the quotient'
-        bad &= np.abs(vb) > 1e-9 * max(float(np.max(np.abs(ov))), 1e-300)
+        # ... but outside the divisor's range a zero fill value IS zero: the quotient there is a / 0 (inf, or nan for 0 / 0), not a number
+        exact0 = (vb == 0) & ((g < ow[0] * (1 - 1e-9)) | (g > ow[-1] * (1 + 1e-9))) if np.ndim(fill) == 0 and fill == 0 else np.zeros(len(g), bool)
+        bad &= (np.abs(vb) > 1e-9 * max(float(np.max(np.abs(ov))), 1e-300)) | exact0
     if uf is np.power:      # 0**0 = 1 but 0**1e-17 = 0: base and exponent both zero to rounding is ill-conditioned
         # ... and 0**negative = inf but (1e-17)**negative is merely huge
         # ... and a base of 1e-14 raised to 0.3 is 6e-5: x**y with y < 1 has an infinite slope at x = 0, so a base that is zero to
@@ -185,8 +187,21 @@ def ufunc_oracle(ctx, args, kwargs, result, exc, pre):
 ufunc_oracle.before = ufunc_before
 
 
+def public_oracle(uf):
+    """The oracle at the public boundary: Spectrum.add / subtract / multiply / divide / power (the operators call these), so
+    that whatever a method does to the result after the shared machinery returns is observed too."""
+    def orc(ctx, args, kwargs, result, exc, pre):
+        return ufunc_oracle(ctx, (args[0], uf) + tuple(args[1:]), kwargs, result, exc, pre)
+
+    def before(ctx, args, kwargs):
+        return ufunc_before(ctx, (args[0], uf) + tuple(args[1:]), kwargs)
+    orc.before = before
+    return orc
+
+
 def install(ctx, lentil):
-    probe.wrap_method(lentil.radiometry.Spectrum, '_ufunc', ufunc_oracle, ctx)
+    for name, uf in (('add', np.add), ('subtract', np.subtract), ('multiply', np.multiply), ('divide', np.divide), ('power', np.power)):
+        probe.wrap_method(lentil.radiometry.Spectrum, name, public_oracle(uf), ctx)
 
 
 # ---------------------------------------------------------------------------
@@ -457,6 +472,23 @@ def workload(ctx, lentil):
                     A + B
         except Exception as e:
             ctx.check(False, 'value=op(interp)', f'update-sequence|raises={type(e).__name__}', str(e), {'unit': unit})
+
+    # ---- a narrow, finely sampled line against a broad, coarsely sampled continuum: more than a million common-grid samples, and
+    # still "the finer sampling" (online oracle decides grid and values) ---------------------------------------------------
+    for i in range(2 if ctx.shard % 4 == 0 else 0):
+        lo, hi = float(rng.uniform(250, 400)), float(rng.uniform(2300, 2600))
+        step = float(rng.uniform(0.0015, 0.002))
+        c0 = float(rng.uniform(600, 1800))
+        wl_line = c0 + step * np.arange(int(rng.integers(5, 40)))
+        line = R.Spectrum(wl_line, rng.uniform(0.5, 2, size=wl_line.size))
+        cont = R.Spectrum(np.array([lo, 0.5 * (lo + hi), hi]), rng.uniform(0.5, 2, size=3))
+        ctx.case({'huge-grid': [lo, hi, step], 'order': i}, ['grid:huge'])
+        try:
+            (line * cont) if i == 0 else cont.add(line, sampling='min')
+        except MemoryError:
+            ctx.skip('huge grid: not enough memory')
+        except Exception as e:
+            ctx.check(False, 'grid', f'huge-grid|raises={type(e).__name__}', str(e), {'step': step})
 
     # ---- scalars and vectors ---------------------------------------------------------------------------
     for i in range(n // 2):
